@@ -82,6 +82,13 @@ class Harness {
       if (n === pending.length) break
       // process ended early: pending[n] was in flight
       const timedOut = r.error && r.error.code === 'ETIMEDOUT'
+      // the process could not be started at all (binary missing, wrapper missing, out of resources): a defect of the
+      // harness set-up, never a verdict on the code under test
+      const spawnFailed = r.error && !timedOut && r.status === null && !r.signal
+      if (spawnFailed) {
+        for (let i = start + n; i < requests.length; i++) responses[i] = { harness_error: 'cannot start ' + cmd + ': ' + String(r.error.code || r.error) }
+        return responses
+      }
       if (timedOut) {
         this.stats.timeouts++
         responses[start + n] = { timeout: true, budget_ms: timeout }
